@@ -5,6 +5,7 @@ import (
 	"encoding/binary"
 	"fmt"
 	"io"
+	"sort"
 	"strings"
 	"time"
 
@@ -51,6 +52,46 @@ type Case struct {
 	SinkStarted bool `json:"sink_started,omitempty"`
 	// WriteFirst: the server writes its data before it reads the client's
 	WriteFirst bool `json:"write_first,omitempty"`
+	// read deadlines reported by the transport of the server (C2STout) / of the client (S2CTout)
+	C2STout Tout `json:"c2s_tout,omitempty"`
+	S2CTout Tout `json:"s2c_tout,omitempty"`
+}
+
+// Tout scripts read deadlines of a transport: Mode "boundary": Count deadlines at chunk boundaries
+// (nothing of the next chunk consumed; repetitions allowed); Mode "mid": one deadline strictly inside a
+// chunk (after k > 0 of its bytes).
+type Tout struct {
+	Mode  string `json:"mode,omitempty"`
+	Seed  uint64 `json:"seed,omitempty"`
+	Count int    `json:"count,omitempty"`
+}
+
+// Offsets expands a deadline script: bounds = the offsets at which a data chunk (length chunk +
+// payload chunk) starts or the stream ends, ascending.
+func (t Tout) Offsets(bounds []int) []int {
+	if t.Mode == "" || len(bounds) == 0 {
+		return nil
+	}
+	r := common.NewRng(t.Seed)
+	var out []int
+	if t.Mode == "mid" {
+		if len(bounds) < 2 {
+			return nil
+		}
+		i := r.Intn(len(bounds) - 1)
+		span := bounds[i+1] - bounds[i]
+		if span < 2 {
+			return nil
+		}
+		k := common.Pick(r, []int{1, 17, 18, 19, span - 1, r.Range(1, span-1)})
+		k = min(max(k, 1), span-1)
+		return []int{bounds[i] + k}
+	}
+	for i := 0; i < max(t.Count, 1); i++ {
+		out = append(out, common.Pick(r, bounds))
+	}
+	sort.Ints(out)
+	return out
 }
 
 // OpObs is what one reader call did on the implementation.
@@ -83,6 +124,7 @@ type Obs struct {
 	COps        []OpObs
 	CFirstSeg   int
 	Panic       string
+	C2STouts, S2CTouts []int
 	// the request looked at again: after the server wrote (if it wrote) and at the end of the session
 	ReqLater []ReqSeen
 	// live objects of the session (for the tamper engine)
@@ -407,7 +449,7 @@ func RunOps(rd netio.Conn, ops []ROp, cfg Cfg, target Target, clientReader, sink
 			o.Err = fmt.Sprintf("panic:%v", pan)
 		}
 		out = append(out, o)
-		if o.Err != "ok" && o.Err != "eof" && (!cont || pan != nil || strings.HasPrefix(o.Err, "harness:")) {
+		if o.Err != "ok" && o.Err != "eof" && ((!cont && o.Err != "timeout") || pan != nil || strings.HasPrefix(o.Err, "harness:")) {
 			break
 		}
 	}
@@ -574,7 +616,20 @@ func run(c Case, sid int, cfg Cfg, keys Keys, obs *Obs, sc *Script) {
 	sizes := c.C2S.Sizes(len(swire), writes, ReqBoundaries(cfg, f, true), fixedLen, cfg.AllowSeg)
 	st := &Conn{}
 	obs.ST = st
-	st.SetScript(swire, sizes)
+	{
+		// data chunk boundaries of the client->server stream: end of the handshake, end of every data chunk
+		rb := ReqBoundaries(cfg, f, true)
+		idx := 3
+		if cfg.NIPSK > 0 {
+			idx = 4
+		}
+		var db []int
+		for i := idx; i < len(rb); i += 2 {
+			db = append(db, rb[i])
+		}
+		obs.C2STouts = c.C2STout.Offsets(db)
+	}
+	st.SetScriptT(swire, sizes, obs.C2STouts)
 	obs.FirstSeg = len(swire)
 	if len(sizes) > 0 {
 		obs.FirstSeg = min(sizes[0], len(swire))
@@ -585,10 +640,10 @@ func run(c Case, sid int, cfg Cfg, keys Keys, obs *Obs, sc *Script) {
 	switch {
 	case herr != nil:
 		obs.HandleKind, obs.HandleErr = "error", ErrClass(herr)
-		sc.Add(fmt.Sprintf("%d handle %d %d", sid, now, obs.FirstSeg), "error "+obs.HandleErr)
+		sc.Add(fmt.Sprintf("%d handle %d %d %s", sid, now, obs.FirstSeg, Csv(obs.C2STouts)), "error "+obs.HandleErr)
 	case req.Addr.Equals(FallbackAddr):
 		obs.HandleKind, obs.FallbackPay = "fallback", pay
-		sc.Add(fmt.Sprintf("%d handle %d %d", sid, now, obs.FirstSeg), "fallback "+Sum(pay))
+		sc.Add(fmt.Sprintf("%d handle %d %d %s", sid, now, obs.FirstSeg, Csv(obs.C2STouts)), "fallback "+Sum(pay))
 	default:
 		obs.HandleKind = "request"
 		obs.ReqAddr, obs.ReqUser, obs.ReqPayload = AddrBytes(req.Addr), req.Username, pay
@@ -596,7 +651,7 @@ func run(c Case, sid int, cfg Cfg, keys Keys, obs *Obs, sc *Script) {
 		if u == "" {
 			u = "-"
 		}
-		sc.Add(fmt.Sprintf("%d handle %d %d", sid, now, obs.FirstSeg), fmt.Sprintf("request %s %s %s", HexField(obs.ReqAddr)[1:], u, Sum(pay)))
+		sc.Add(fmt.Sprintf("%d handle %d %d %s", sid, now, obs.FirstSeg, Csv(obs.C2STouts)), fmt.Sprintf("request %s %s %s", HexField(obs.ReqAddr)[1:], u, Sum(pay)))
 		sconn, err = req.Proceed()
 		if err != nil {
 			obs.HandleErr = "proceed: " + err.Error()
@@ -690,12 +745,27 @@ func run(c Case, sid int, cfg Cfg, keys Keys, obs *Obs, sc *Script) {
 	rwire := st.Wire()
 	rfixed := cfg.RespPrefix.Len + cfg.KeyLen + 11 + cfg.KeyLen + TagSize
 	rsizes := c.S2C.Sizes(len(rwire), st.Writes, RespBoundaries(cfg, obs.RespFrames), rfixed, cfg.AllowSeg)
-	ct.SetScript(rwire, rsizes)
+	{
+		// offset 0, end of the first payload chunk, end of every data chunk
+		rb := RespBoundaries(cfg, obs.RespFrames)
+		var db []int
+		if len(rb) >= 4 {
+			db = append(db, 0)
+			for i := 3; i < len(rb); i += 2 {
+				db = append(db, rb[i])
+			}
+			if c.S2CTout.Mode == "mid" {
+				db = db[1:] // not inside the response header / first payload chunk
+			}
+		}
+		obs.S2CTouts = c.S2CTout.Offsets(db)
+	}
+	ct.SetScriptT(rwire, rsizes, obs.S2CTouts)
 	obs.CFirstSeg = len(rwire)
 	if len(rsizes) > 0 {
 		obs.CFirstSeg = min(rsizes[0], len(rwire))
 	}
-	sc.Add(fmt.Sprintf("%d cseg %d", sid, obs.CFirstSeg), "ok")
+	sc.Add(fmt.Sprintf("%d cseg %d 0 %s", sid, obs.CFirstSeg, Csv(obs.S2CTouts)), "ok")
 	now = time.Now().Unix()
 	obs.COps = RunOps(cc, c.CReads, cfg, c.Target, true, c.SinkStarted, false)
 	for _, o := range obs.COps {
@@ -736,10 +806,10 @@ func Present(cfg Cfg, wire []byte, sizes []int, sid int, sc *Script) (h HandleOb
 	var herr error
 	if pan := common.Safely(func() { req, pay, herr = Handle(sv, st) }); pan != nil {
 		h.Kind, h.Err = "error", fmt.Sprintf("panic:%v", pan)
-		sc.Add(fmt.Sprintf("%d handle %d %d", sid, now, h.FirstSeg), "error "+h.Err)
+		sc.Add(fmt.Sprintf("%d handle %d %d -", sid, now, h.FirstSeg), "error "+h.Err)
 		return
 	}
-	line := fmt.Sprintf("%d handle %d %d", sid, now, h.FirstSeg)
+	line := fmt.Sprintf("%d handle %d %d -", sid, now, h.FirstSeg)
 	switch {
 	case herr != nil:
 		h.Kind, h.Err = "error", ErrClass(herr)
